@@ -161,6 +161,15 @@ func init() {
 		Rule: "same world as C06 with password-protected http and tcpmux routes mixed with unprotected and user-routed ones on the same hosts; request shapes: origin-form and absolute-form targets, Authorization / Proxy-Authorization in any casing, right, wrong, missing and foreign credentials; oracle: a protected route's backend saw a request only if the request carried exactly its credentials; distinct = distinct event-log hash",
 		Assume: []string{"http_proxy, socks5 and static_file client plugins, the dashboard and the frpc admin API, HTTP/1.0 and h2c request forms are not exercised yet"},
 	})
+	reg(&propSpec{ID: "C03", Level: "exploration",
+		Batches: []batchSpec{
+			{Name: "fault-free", World: "udp", Weight: 5},
+			{Name: "fault-free-l2", World: "udp", Weight: 1, Park: 0.002, Gos: 0.01},
+			{Name: "faults", World: "udp", Faults: true, Weight: 3},
+		},
+		Stub: []string{"network (simnet UDP with per-leg loss/duplication/reordering)", "UDP users (several source addresses)", "UDP responder backend", "clock"},
+		Rule: "one run = real frps + real frpc with a udp proxy (or sudp proxy + visitor frpc), drawn packet size, encryption, compression, mux, TLS, 1-6 user sockets each sending 1-60 datagrams of 12..packet-size bytes to the public endpoint; the backend answers each with a function of the request; multiset inclusion is measured at the public socket and at the client's local sockets so that injected loss/duplication is not blamed on frp; faults batch adds per-leg loss/dup/reorder and a work-connection reset; distinct = distinct event-log hash",
+	})
 	reg(&propSpec{ID: "C10", Level: "fault_enumeration",
 		Batches: []batchSpec{
 			{Name: "cycles", World: "release", Weight: 5},
